@@ -183,6 +183,10 @@ FAR_EDGES = [7200 - _E, 7200, 7200 + _E, 7200.5, 7200.5 + _E, 7205, 7209.5 - _E,
 REPS = ["tuple_float", "list_float", "ndarray_float64", "ndarray_int64", "tuple_int", "ndarray_float32", "numpy_scalars"]
 
 
+REP_A = [0, 1, 2, 3, 4]
+REP_B = [0, 0.5, 1, 1.5, 2, 2.5, 3, 3.5, 4]
+
+
 def represent(iv, rep):
     """The interval in the given representation, or None when the representation cannot hold its two values exactly."""
     import numpy as np
@@ -236,6 +240,9 @@ def blocks(tier):
     ivs = [(a, b) for i, a in enumerate(lat) for b in lat[i:]]
     pairs = list(itertools.product(range(len(ivs)), repeat=2))
     out = [{"space": "intervals", "tier": tier, "pairs": c} for c in chunk(pairs, 16)]
+    # representations: whole-number intervals in every representation against intervals on the half lattice as float tuples / arrays
+    ra = [(a, b) for i, a in enumerate(REP_A) for b in REP_A[i:]]
+    out += [{"space": "reps", "a": list(iv)} for iv in ra]
     n = len(geom_pool())
     gp = list(itertools.product(range(n), repeat=2))
     out += [{"space": "geoms", "pairs": c} for c in chunk(gp, 32)]
@@ -259,6 +266,12 @@ def run_block(block, rec):
             ra, rb = REPS[k % len(REPS)], REPS[(k // len(REPS)) % len(REPS)]
             if (ra, rb) != ("tuple_float", "tuple_float"):
                 rec.add(run_case({"space": "intervals", "a": list(ivs[i]), "b": list(ivs[j]), "rep": [ra, rb]}))
+    elif sp == "reps":
+        for j, b0 in enumerate(REP_B):
+            for b1 in REP_B[j:]:
+                for ra in REPS:
+                    for rb in ("tuple_float", "ndarray_float64", "ndarray_float32"):
+                        rec.add(run_case({"space": "intervals", "a": block["a"], "b": [b0, b1], "rep": [ra, rb]}))
     elif sp == "geoms":
         pool = geom_pool()
         for i, j in block["pairs"]:
